@@ -150,6 +150,27 @@ def check_case(ctx, fl, c, rng, origin):
             if tv != text:
                 i, x, y = first_diff(tv.split("\n"), text.split("\n"))
                 ctx.violation(f"Fll/variant-not-normalised/{v['name']}", dict(case, text=vt), y, x, note=f"line {i}")
+        # every Function term of the imported engine sees what the original's sees: the engine's variables by name - inputs, outputs,
+        # variables declared later in the text, its own variable - and the argument
+        for eng_ in (real, imported):
+            for k_, v_ in enumerate(eng_.input_variables + eng_.output_variables):
+                v_.value = 0.25 + 0.125 * k_
+        for va, vb in zip(real.input_variables + real.output_variables, imported.input_variables + imported.output_variables):
+            for ta, tb in zip(va.terms, vb.terms):
+                if type(ta).__name__ != "Function" or type(tb).__name__ != "Function" or ta.variables:
+                    continue        # (a term's own variables are not part of the language: the text cannot hold them)
+                ctx.count()
+                res = []
+                for t_ in (ta, tb):
+                    try:
+                        res.append(float(np.asarray(t_.membership(0.5), dtype=float)))
+                    except Exception as ex:
+                        res.append(f"{type(ex).__name__}")
+                if not (res[0] == res[1] or (isinstance(res[0], float) and isinstance(res[1], float) and (math.isnan(res[0]) and math.isnan(res[1]) or abs(res[0] - res[1]) <= 1e-9 * max(1.0, abs(res[0]))))):
+                    ctx.violation("Fll/re-imported-engine/function-term-differs", dict(case, text=text, variable=va.name, term=ta.name), res[0], res[1],
+                                  note=f"term {va.name}.{ta.name} '{ta.formula}' at x = 0.5: original {res[0]}, re-imported {res[1]}")
+        for eng_ in (real, imported):
+            eng_.restart()
         # same outputs (engines whose heights and weights are 1 or far from 1: canon = engine)
         if canon == e and real.input_variables and real.output_variables:
             rows = rows_for(rng, real)
